@@ -13,7 +13,7 @@ def run(ctx):
     m = vlib.build_model("hcache", "XHCache.v", "driver_hcache.ml")
     vlib.k_tie(ctx, "header_cache", "%s %d %d" % (h, ctx.seed, 300 if q else 20000), m,
                "header_read / header_seek / psf_bump_header_allocation (static in common.c, reached by inclusion) with sizes and positions 0 .. 150000 (around the 100 KiB "
-               "cap), negative relative seeks, and an I/O layer that transfers everything / nothing / half / a random part: return value, indx, end, len after every call", key="hcache")
+               "cap), negative relative seeks, and an I/O layer that transfers everything / nothing / half / a random part: return value, indx, end, len after every call", key="hcache", timeout=150)
     h = vlib.cc_harness("kern_gate", ["kern_gate.c"], kind="plain")
     m = vlib.build_model("gate", "XGate.v", "driver_gate.ml")
     vlib.k_tie(ctx, "validate_sfinfo", "%s %d %d" % (h, ctx.seed, 20000 if q else 400000), m,
@@ -31,6 +31,23 @@ def run(ctx):
                 nm = "%s#%d%s" % (name, i, r)
                 inputs[nm] = mut
                 scripts.append((nm, fuzz.exercise(mut, route=r, deep=True)))
+            if i % 2 == 0 or not q:
+                # the same bytes opened for read/write: the container's close hook runs on whatever the parser left behind
+                nm = "%s#%dx" % (name, i)
+                inputs[nm] = mut
+                scripts.append((nm, ["store 1 hex %s" % (mut.hex() if mut else "-"), "open 1 1 x 0 0 0", "err -", "info 1", "r 1 s f 20", "close 1"]))
+    # field sweep, read/write open then close: the failing open runs the container's close hook on half-parsed state
+    seen_major = set()
+    for (name, data) in corpus:
+        mj = name.split("_")[0]
+        if "#" in name or len(data) > 20000:
+            continue
+        full = not (q and mj in seen_major)         # quick: the complete sweep for one file per container, the zeroed 32-bit fields for all the others
+        seen_major.add(mj)
+        for i, mut in enumerate(fuzz.field_sweep(data, 72 if q else 160, full)):
+            nm = "%s#s%dx" % (name, i)
+            inputs[nm] = mut
+            scripts.append((nm, ["store 1 hex %s" % mut.hex(), "open 1 1 x 0 0 0", "err -", "info 1", "close 1"]))
     for k in range(40 if q else 2000):
         junk = bytes(rng.below(256) for _ in range(rng.choice([0, 1, 4, 12, 64, 300])))
         if k % 3 == 0:
